@@ -50,6 +50,12 @@ def run(ctx):
     L = '<datafusion_proto_models::generated::datafusion::LogicalPlanNode as datafusion_proto::logical_plan::AsLogicalPlan>::'
     protocov.check_roots(ctx, 'LogicalPlan', L + 'try_from_logical_plan', L + 'try_into_logical_plan', min_messages=35)
     protocov.check_roots(ctx, 'Expr', 'datafusion_proto::logical_plan::to_proto::serialize_expr', 'datafusion_proto::logical_plan::from_proto::parse_expr', min_messages=30)
+    # encoder-side coverage of the source structs
+    protocov.check_encoder_reads(ctx, 'LogicalPlan', L + 'try_from_logical_plan', 'datafusion_expr::logical_plan::plan::LogicalPlan', min_structs=15)
+    protocov.check_encoder_reads(ctx, 'Expr', 'datafusion_proto::logical_plan::to_proto::serialize_expr', 'datafusion_expr::expr::Expr', min_structs=10)
+    protocov.oneof_roundtrip(ctx, 'datafusion_expr::expr::Expr', 'datafusion_proto::logical_plan::to_proto::serialize_expr',
+                             'datafusion_proto::logical_plan::from_proto::parse_expr',
+                             'datafusion_proto_models::generated::datafusion::logical_expr_node::ExprType', floor=28)
     # selftest
     import common
     st = ctx.st
